@@ -114,6 +114,13 @@ class P:
             return P.const(o) * P({(): 1 / s.t[()]})
         raise ShadowUnsupported("division by a non-constant polynomial")
 
+    def __abs__(s):
+        if not s.t:
+            return P()
+        if list(s.t) == [()]:
+            return P({(): abs(s.t[()])})
+        raise ShadowUnsupported("absolute value of a non-constant polynomial")
+
     def __lt__(s, o):
         raise ShadowUnsupported("ordering comparison on a polynomial")
     __le__ = __gt__ = __ge__ = __lt__
